@@ -27,6 +27,33 @@ def run_cli(argv, input_fn=None):
             raise EOFError('no stdin')
         return input_fn(prompt)
     builtins.input = fake_input
+
+    class FakeStdin(io.TextIOBase):
+        """A program that prompts by writing to stdout and reading a line from sys.stdin (instead of calling input()) meets the same
+        user: what it wrote since the last read is the prompt; the end of input reads as '' - as it does on a real terminal."""
+        pos = 0
+
+        def readable(self):
+            return True
+
+        def isatty(self):
+            return False
+
+        def readline(self, *a):
+            text = out.getvalue()
+            prompt, FakeStdin.pos = text[FakeStdin.pos:], len(text)
+            try:
+                return fake_input(prompt.split('\n')[-1] if not prompt.strip() else prompt) + '\n'
+            except EOFError:
+                return ''
+
+        def read(self, *a):
+            return ''
+
+        def __iter__(self):
+            return iter(self.readline, '')
+    saved_stdin = sys.stdin
+    sys.stdin = FakeStdin()
     r.exc = None
     r.code = 0
     try:
@@ -40,5 +67,6 @@ def run_cli(argv, input_fn=None):
                 r.code = 1
     finally:
         sys.argv, builtins.input = saved_argv, saved_input
+        sys.stdin = saved_stdin
     r.stdout, r.stderr = out.getvalue(), err.getvalue()
     return r
